@@ -286,6 +286,11 @@ pub fn make_conc_case(real_prop: &str, seed: u64, tier: Tier) -> Case {
                 };
                 round.writer = Some(op);
                 round.writer_delay = *r.pick(&[0u8, 1, 2, 3, 5, 8, 13, 21, 30]);
+                // half of the writes are placed inside in-flight work: after the k-th completed body
+                if r.pct(50) {
+                    round.writer_after = r.range(1, 6) as u8;
+                    round.writer_delay = *r.pick(&[0u8, 0, 1, 2, 3]);
+                }
             }
             "C21" => {
                 let k = r.range(1, 2);
